@@ -21,9 +21,9 @@ SCENARIOS = {
 }
 
 
-def run_one(exe, sc, k):
+def run_one(exe, sc, k, persist=False):
     try:
-        p = subprocess.run([exe, str(sc), str(k)], stdout=subprocess.PIPE, stderr=subprocess.PIPE, text=True, timeout=30)
+        p = subprocess.run([exe, str(sc), str(k)] + (["p"] if persist else []), stdout=subprocess.PIPE, stderr=subprocess.PIPE, text=True, timeout=30)
     except subprocess.TimeoutExpired:
         return None, "hang"
     if p.returncode != 0:
@@ -51,6 +51,10 @@ def run(prop, tier, seed, workdir):
         for k in range(1, m + 1):
             e2, note = run_one(exe, sc, k)
             sessions.append((sc * 100 + k, sc, k, e2, note))
+        # memory stays exhausted: every request from the k-th on fails (the clean-up paths must not need memory)
+        for k in range(1, m + 1):
+            e2, note = run_one(exe, sc, k, persist=True)
+            sessions.append((sc * 100 + 50 + k, sc, k, e2, note + (" persistent" if note else "")))
     lines = []
     for sid, sc, k, evs, note in sessions:
         lines.append('{"e":"Reset","sid":%d}' % sid)
@@ -64,9 +68,9 @@ def run(prop, tier, seed, workdir):
     for bd in bad:
         sid = bd["i"]
         s = by[sid]
-        res.violations.append(dict(desc="scenario %d (%s), failing request k=%d: %s" % (s[1], SCENARIOS[s[1]], s[2], bd["why"]),
+        res.violations.append(dict(desc="scenario %d (%s), failing request k=%d%s: %s" % (s[1], SCENARIOS[s[1]], s[2], " and all later ones" if s[0] % 100 >= 50 else "", bd["why"]),
                                    cluster="%d|%s" % (s[1], bd["why"]), slug="alloc-%d-%d" % (s[1], s[2]), dev=bd.get("dev", ""),
-                                   replay=dict(kind="alloc", scenario=s[1], k=s[2], why=bd["why"], events=s[3])))
+                                   replay=dict(kind="alloc", scenario=s[1], k=s[2], persist=(s[0] % 100 >= 50), why=bd["why"], events=s[3])))
     nsites = len({s[1] for s in sessions if s[2] > 0})
     res.coverage = dict(
         evaluations=len(sessions), distinct_nontrivial=sum(1 for s in sessions if s[2] > 0),
@@ -79,14 +83,14 @@ def run(prop, tier, seed, workdir):
         scenario_list=SCENARIOS, exhaustive=True)
     res.assumptions = ["allocation sites are reached through the %d listed scenarios; a new allocating call site needs a new scenario" % len(SCENARIOS),
                        "only allocations made directly by library objects are intercepted (libc-internal allocations are not failed)",
-                       "single failures only (one failing position per run)"]
+                       "one failing position per run, and runs in which every request from the k-th on fails; arbitrary subsets of failing requests are not enumerated"]
     return res
 
 
 def replay(rp, workdir):
     res = Result("alloc-replay", level="fault_enumeration")
     b = build.ensure(["slack"], [("halloc", "slack")])
-    evs, note = run_one(b[("halloc", "slack")], rp["scenario"], rp["k"])
+    evs, note = run_one(b[("halloc", "slack")], rp["scenario"], rp["k"], persist=rp.get("persist", False))
     lines = ['{"e":"Reset","sid":1}'] + (['{"e":"crash","sid":1}'] if evs is None else ['{"sid":1,' + e[1:] for e in evs])
     print("\n".join(lines))
     n, bad, st = tlc.validate("TraceAlloc", os.path.join(tlc.SPEC, "TraceAlloc.cfg"), lines, workdir, jvms=1)
